@@ -115,7 +115,7 @@ def cases(tier, seed):
     out = []
     for shape in SHAPES + ([(4,), (3, 3), (2, 3, 2), (1, 1, 1), (3, 1, 2)] if tier == "thorough" else []):
         for rot in (0, 1, 2):
-            for var in ("canon", "T", "zeroterm"):
+            for var in ("canon", "T", "zeroterm", "rev"):
                 if var == "T" and len(shape) < 2:
                     continue
                 out.append({"k": "reduce", "s": list(shape), "rot": rot, "v": var})
